@@ -110,6 +110,13 @@ def freshNodeAt (role : Role) (clock : Nat) : Node :=
 
 def freshNode (role : Role) : Node := freshNodeAt role clockStart
 
+def opStr : FsOp → String
+  | .create p => s!"X create {escw p}"
+  | .append p d => s!"X append {escw p} {String.ofList (d.flatMap fun x => [hexDigit (x / 16), hexDigit (x % 16)])}"
+  | .pwrite p off d => s!"X pwrite {escw p} {off} {String.ofList (d.flatMap fun x => [hexDigit (x / 16), hexDigit (x % 16)])}"
+  | .rename a b => s!"X rename {escw a} {escw b}"
+  | .unlink p => s!"X unlink {escw p}"
+
 def hexStr (b : Bytes) : String := String.ofList (b.flatMap fun x => [hexDigit (x / 16), hexDigit (x % 16)])
 
 def dumpFs (fs : Fs) : List String :=
@@ -200,13 +207,48 @@ def step (w : World) (line : String) : World × List String :=
     | none => (w, ["E bad-op"])
   | "SNAP" =>
     let n := w.node.snapshotAll (parseOrders a1)
-    ({ w with node := n }, dumpFs n.fs ++ dumpNode n)
+    -- cross-check of the two formulations of the writer (final files vs. operation trace)
+    let chk : List String := match (dedupConsecutive w.node.toSnapshot).reverse with
+      | [(name, reclaim)] =>
+        match w.node.db? name with
+        | some db =>
+          let viaOps := w.node.fs.applyOps (snapshotOps db w.node.fs reclaim ((AL.get? (parseOrders a1) name).getD []))
+          if dumpFs viaOps == dumpFs n.fs then [] else ["E trace-mismatch"]
+        | none => []
+      | _ => []
+    ({ w with node := n }, chk ++ dumpFs n.fs ++ dumpNode n)
   | "RESTART" =>
     match w.node.restart (freshNodeAt w.node.role w.node.clock) with
     | some n =>
       -- the fresh node consumed two ticks before loading
       ({ w with node := n, notices := [] }, "# restarted" :: dumpFs n.fs ++ dumpNode n)
     | none => ({ w with node := { freshNodeAt w.node.role w.node.clock with fs := w.node.fs }, notices := [] }, ["R PANIC restart"])
+  | "MARK" => (w, [])
+  | "COPYDIR" => (w, ["# copied"])
+  | "CRASHPLAN" =>
+    -- the file operations of the pending snapshot (single database in the queue)
+    match (dedupConsecutive w.node.toSnapshot).reverse with
+    | (name, reclaim) :: _ =>
+      match w.node.db? name with
+      | some db =>
+        let ops := snapshotOps db w.node.fs reclaim ((AL.get? (parseOrders a1) name).getD [])
+        (w, ops.map opStr)
+      | none => (w, ["E no-db"])
+    | [] => (w, ["E empty-queue"])
+  | "CRASHLOAD" =>
+    -- CRASHLOAD <n> <order=…> : keep the first n operations of the pending snapshot, then start the node
+    let p := Bytes.splitn 32 2 a2
+    match Bytes.parseNat a1, (dedupConsecutive w.node.toSnapshot).reverse with
+    | some n, (name, reclaim) :: _ =>
+      match w.node.db? name with
+      | some db =>
+        let ops := snapshotOps db w.node.fs reclaim ((AL.get? (parseOrders (p[0]?.getD [])) name).getD [])
+        let fs' := w.node.fs.applyOps (ops.take n)
+        match ({ w.node with fs := fs' } : Node).restart (freshNodeAt w.node.role w.node.clock) with
+        | some n' => (w, s!"# crash-prefix {n}" :: dumpNode n')
+        | none => (w, [s!"# crash-prefix {n}", "R PANIC restart"])
+      | none => (w, ["E no-db"])
+    | _, _ => (w, ["E bad-op"])
   | "DELMETA" =>
     let n := { w.node with fs := AL.erase w.node.fs (metaFile a1) }
     ({ w with node := n }, dumpFs n.fs ++ dumpNode n)
